@@ -477,6 +477,9 @@ func errClass(err error) string {
 		return "<nil>"
 	}
 	s := err.Error()
+	if i := strings.Index(s, "/dev/shm/"); i >= 0 {
+		s = s[:i] + "$DIR..."
+	}
 	if i := strings.Index(s, ":"); i > 0 {
 		rest := s[i+1:]
 		if len(rest) > 60 {
@@ -494,7 +497,7 @@ func c10CheckUnfaulted(c *core.Ctx, tag string, info *xfer.SnapInfo, o *xfer.Out
 		return false
 	}
 	if !o.Installed {
-		c.Violate("unfaulted-install-failed", "%s: un-faulted transfer of %s was not installed: %v (sender: %v)", tag, info.ID, o.InstallErr(), o.SendErr)
+		c.Violate("unfaulted-install-failed", "%s: un-faulted transfer of %s was not installed: %v (sender: %v)", tag, info.ID, errClass(o.InstallErr()), o.SendErr)
 		return false
 	}
 	if !bytes.Equal(o.Payload, info.Stream) {
@@ -615,7 +618,7 @@ func c10JudgeInstall(c *core.Ctx, eng *xfer.Engine, tag string, op *c10Op, spec 
 		c.Probe("rejected_other")
 	}
 	if !fired {
-		c.Violate("unfaulted-install-failed", "%s: fault did not fire, yet the install failed: %v", tag, o.InstallErr())
+		c.Violate("unfaulted-install-failed", "%s: fault did not fire, yet the install failed: %v", tag, errClass(o.InstallErr()))
 		return
 	}
 	after, _, err := xfer.IDs(dest)
@@ -656,13 +659,24 @@ func c10JudgeInstall(c *core.Ctx, eng *xfer.Engine, tag string, op *c10Op, spec 
 // c10Direct hands a (possibly altered) payload straight to snapshot.Restore,
 // the consumer a node uses on its own store's streams.
 func c10Direct(c *core.Ctx, tag string, info *xfer.SnapInfo, S, P []byte, kind string) {
+	_ = kind
 	tmp := filepath.Join(c.Dir, "direct.db")
 	os.Remove(tmp)
 	defer os.Remove(tmp)
 	cls, det := xfer.Compare(S, P)
-	_, err := snapshot.Restore(bytes.NewReader(P), tmp)
+	nread, err := snapshot.Restore(bytes.NewReader(P), tmp)
 	xfer.CleanRestoreTemps(c.Dir)
 	c.Probe("direct_restores")
+	if err == nil && nread < int64(len(P)) {
+		// Restore reads exactly what the header announces (a self-consistent,
+		// checksummed snapshot) and never looks at what follows. Bytes after the
+		// last announced file - an extension, or a header announcing fewer files
+		// than were sent - are rejected by the install path (FullSink:
+		// ErrUnexpectedData), which every stream from another node goes through;
+		// Restore alone is not required to notice them.
+		c.Probe("direct_restore_ignored_trailing_bytes")
+		return
+	}
 	if err != nil {
 		if cls == "same" {
 			c.Violate("unfaulted-restore-failed", "%s: direct restore of an unaltered payload failed: %v", tag, err)
@@ -680,10 +694,6 @@ func c10Direct(c *core.Ctx, tag string, info *xfer.SnapInfo, S, P []byte, kind s
 	case cls == "same":
 	case cls == "header-only":
 		c10def.set(c, "corrupt-stream-accepted", "%s: direct-restore: corrupted stream was restored (content identical to the source): payload-bytes-identical header-diff: %s", tag, det)
-	case kind == "ext" || (len(P) > len(S) && bytes.Equal(P[:len(S)], S)):
-		// Restore reads exactly what the header announces; bytes after the last
-		// file are never looked at. The install path (sink) is what rejects extensions.
-		c.Probe("direct_restore_ignored_trailing_bytes")
 	default:
 		c.Violate("altered-stream-accepted", "%s: direct-restore: altered stream was restored: %s", tag, det)
 	}
